@@ -91,4 +91,26 @@ DiffLaws(mesh, E, x, y) ==
 (* ---- distances ---------------------------------------------------------------------- *)
 \* node-node geodesic of edge row on integer direction nodes: atan2(sqrt(num), dot)
 NodeGeo(nodes, row) == GeoDescr(nodes[row[1] + 1], nodes[row[2] + 1])
+
+(* ---- fine meshes: exact shrink map ------------------------------------------------------ *)
+\* Gnomonic homothety about the direction c with factor 1/M, in exact integers (as in C14 / C18):
+\* v |-> (M-1)(v.c) c + (c.c) v.  With M = 10^3..10^6 the shrunk coordinates exceed TLC's integers, so the
+\* geodesic descriptor of a shrunk edge is emitted in closed form over the BASE vectors (small integers)
+\* and evaluated by the harness with M substituted (unbounded integers).  LawShrinkGeo (model-checked in
+\* EdgeShrink.tla for M = 1..3 on the lattice) states that the closed form is GeoDescr of the shrunk pair.
+ShrinkPt(v, c, M) == LET t == (M - 1) * Dot(v, c)  cc == Dot(c, c)
+                     IN << t * c[1] + cc * v[1], t * c[2] + cc * v[2], t * c[3] + cc * v[3] >>
+VAdd(u, v)   == << u[1] + v[1], u[2] + v[2], u[3] + v[3] >>
+VScale(k, u) == << k * u[1], k * u[2], k * u[3] >>
+ShrunkGeoParts(a, b, c) ==
+    LET al == Dot(a, c)  be == Dot(b, c)
+    IN [ al |-> al, be |-> be, cc |-> Dot(c, c), ab |-> Dot(a, b),
+         w1 |-> VAdd(VScale(al, Cross(c, b)), VScale(be, Cross(a, c))), w2 |-> Cross(a, b) ]
+\* S(a) x S(b) = cc [ (M-1) w1 + cc w2 ],   S(a) . S(b) = cc [ (M^2 - 1) al be + cc ab ]
+ShrunkGeo(p, M) == << p.cc * p.cc * N2(VAdd(VScale(M - 1, p.w1), VScale(p.cc, p.w2))),
+                      p.cc * ((M * M - 1) * p.al * p.be + p.cc * p.ab) >>
+LawShrinkGeo(a, b, c) == \A M \in 1..3 : GeoDescr(ShrinkPt(a, c, M), ShrinkPt(b, c, M)) = ShrunkGeo(ShrunkGeoParts(a, b, c), M)
+\* the shrunk points stay in the open hemisphere of c and keep their order around c (sanity of the map)
+LawShrinkKeeps(a, c) == Dot(a, c) > 0 => \A M \in 1..3 : Dot(ShrinkPt(a, c, M), c) > 0 /\ Parallel(Cross(ShrinkPt(a, c, M), c), Cross(a, c))
+ShrunkNodeGeoParts(nodes, centre, row) == ShrunkGeoParts(nodes[row[1] + 1], nodes[row[2] + 1], centre)
 =============================================================================
